@@ -19,7 +19,8 @@ Inductive ftree :=
 | FRule (c : Z) (n : nat)                                (* a thematic break: 3 + n times the character c *)
 | FEm (c0 : Z) (pre : str) (ch : Z) (double : bool) (w post : str)    (* a one-line paragraph: c0 :: pre, a run of ch, w, the run again, post *)
 | FLink (c0 : Z) (pre w dest post : str)                             (* a one-line paragraph: c0 :: pre, [w](dest), post *)
-| FSent (c0 : Z) (t0 : str) (gs : list mseg).                        (* a one-line paragraph: c0 :: t0, then emphasised phrases and links in any order, each with the text after it *)
+| FSent (c0 : Z) (t0 : str) (gs : list mseg)                         (* a one-line paragraph: c0 :: t0, then emphasised phrases and links in any order, each with the text after it *)
+| FTick (c0 : Z) (pre code post : str).                              (* a one-line paragraph: c0 :: pre, `code`, post - the code of any characters but backticks and regex triggers *)
 
 (* the text of an FEm line after its first character *)
 Definition em_run (ch : Z) (double : bool) : str := if double then [ch; ch] else [ch].
@@ -27,6 +28,9 @@ Definition em_body (pre : str) (ch : Z) (double : bool) (w post : str) : str := 
 
 (* the text of an FLink line after its first character *)
 Definition link_body (pre w dest post : str) : str := pre ++ [91] ++ w ++ [93; 40] ++ dest ++ [41] ++ post.
+
+(* the text of an FTick line after its first character *)
+Definition tick_body (pre code post : str) : str := pre ++ [96] ++ code ++ [96] ++ post.
 
 Definition quote_s (l : sline) : sline :=
   match l with
@@ -61,6 +65,7 @@ Fixpoint spell (t : ftree) : list sline :=
   | FEm c0 pre ch double w post => [SLine 0 c0 (em_body pre ch double w post)]
   | FLink c0 pre w dest post => [SLine 0 c0 (link_body pre w dest post)]
   | FSent c0 t0 gs => [SLine 0 c0 (t0 ++ mbody gs)]
+  | FTick c0 pre code post => [SLine 0 c0 (tick_body pre code post)]
   end.
 Definition spell_seq (ts : list ftree) : list sline := join_blank (map spell ts).
 Definition text_of (ls : list sline) : list str := map render_line ls.
@@ -100,6 +105,7 @@ Section Mode.
     | FEm c0 pre ch double w post => PParagraph ln [c0 :: em_body pre ch double w post ++ [10]]
     | FLink c0 pre w dest post => PParagraph ln [c0 :: link_body pre w dest post ++ [10]]
     | FSent c0 t0 gs => PParagraph ln [c0 :: (t0 ++ mbody gs) ++ [10]]
+    | FTick c0 pre code post => PParagraph ln [c0 :: tick_body pre code post ++ [10]]
     end.
   Fixpoint pre_seq (ln : Z) (ts : list ftree) : list pre :=
     match ts with
@@ -111,7 +117,7 @@ End Mode.
 (* Paragraph.parse_setext after the block *)
 Fixpoint st_after (st : pstate) (t : ftree) : pstate :=
   match t with
-  | FPara _ _ _ | FFence _ _ _ | FHead _ _ _ | FRule _ _ | FEm _ _ _ _ _ _ | FLink _ _ _ _ _ | FSent _ _ _ => st
+  | FPara _ _ _ | FFence _ _ _ | FHead _ _ _ | FRule _ _ | FEm _ _ _ _ _ _ | FLink _ _ _ _ _ | FSent _ _ _ | FTick _ _ _ _ => st
   | FQuote _ => mkPs true
   | FItem _ _ ts => fold_left st_after ts st
   | FMore _ _ ts _ next => st_after (fold_left st_after ts st) next
@@ -120,7 +126,7 @@ Definition st_seq (st : pstate) (ts : list ftree) : pstate := fold_left st_after
 
 Fixpoint depth (t : ftree) : nat :=
   match t with
-  | FPara _ _ _ | FFence _ _ _ | FHead _ _ _ | FRule _ _ | FEm _ _ _ _ _ _ | FLink _ _ _ _ _ | FSent _ _ _ => 0%nat
+  | FPara _ _ _ | FFence _ _ _ | FHead _ _ _ | FRule _ _ | FEm _ _ _ _ _ _ | FLink _ _ _ _ _ | FSent _ _ _ | FTick _ _ _ _ => 0%nat
   | FQuote ts | FItem _ _ ts => S (fold_right (fun t m => Nat.max (depth t) m) 0%nat ts)
   | FMore _ _ ts _ next => Nat.max (S (fold_right (fun t m => Nat.max (depth t) m) 0%nat ts)) (depth next)
   end.
